@@ -107,6 +107,31 @@ func forEachNDInput(w *W, fn func(name string, text []byte)) {
 			}
 		}
 	}
+	// all-structural inputs: nothing but {} / [] lines (every byte is a structural index in ND
+	// mode), every total around one and two full index buffers, the input ending right there
+	w.Note(fmt.Sprintf("all-structural inputs: one {\"a\":1} line then k lines of {} (and of []), LF, with and without a final newline, every k with %d..%d and %d..%d structural bytes", flushAt-60, flushAt+260, 2*flushAt-60, 2*flushAt+260))
+	for _, base := range []int{flushAt, 2 * flushAt} {
+		for k := (base - 60) / 3; k <= (base+260)/3; k++ {
+			w.res.States++
+			if !w.Mine() || w.Expired() || w.TooManyViolations() {
+				continue
+			}
+			for _, line := range []string{"{}", "[]"} {
+				for fin := 0; fin < 2; fin++ {
+					var b bytes.Buffer
+					b.WriteString("{\"a\":1}\n")
+					for i := 0; i < k; i++ {
+						b.WriteString(line)
+						if i < k-1 || fin == 1 {
+							b.WriteByte('\n')
+						}
+					}
+					w.res.Transitions++
+					fn("all-structural", b.Bytes())
+				}
+			}
+		}
+	}
 	for total := 8192 - 70; total <= 8192+70; total++ {
 		w.res.States++
 		if !w.Mine() || w.Expired() {
